@@ -47,6 +47,8 @@ Proof.
   assert (Hp : (c * n = 2 * (c * h) \/ c * n = 2 * (c * h) + c)%nat) by (destruct Pn as [->| ->]; [left|right]; ring).
   generalize dependent (c * b)%nat. generalize dependent (c * h)%nat. generalize dependent (c * n)%nat. intros; lia.
 Qed.
+(* where entry j of a centred coarse vector (bin j - n/2) sits in the centred fine vector (bin c*(j - n/2)) *)
+Definition centre_off (n c : nat) : nat := ((c * n) / 2 - c * (n / 2))%nat.
 Lemma keep_le n : (1 <= n)%nat -> (keep n <= n)%nat.
 Proof. intros Hn. destruct (keep_spec n Hn) as (h & _ & _ & _ & H). exact H. Qed.
 End GridIndex.
